@@ -6,9 +6,13 @@ open Gms.Proto Gms.Fulltext
 /-
 rune  : <cp>.<len>.<ch 0|1>            (what Go's range loop delivers + isCharacter)
 case  : (tok <ci 0|1> (d rune …))      obs: w=((<word hex> <pos>) …) u=((<word hex> <count>) …) n=<unique count>
-        (hist <ci 0|1> <keyed 0|1> (ops op …) (queries (d rune …) …))
-          op = (ins id col …) | (del id) | (upd id col …) | (rekey id new);  col = null | (d rune …)
-          obs: t=((id col …) …) mw=((id …) …) me=((id …) …) dc=(…) gc=(…) rc=(…) pos=(…)      (every list sorted as strings)
+        (hist <ci 0|1> (lay <k2 0|1> (pk ord …) (uks (ord …) …) (nn ord …)) <tail 0|1> (ops op …) (queries (d rune …) …))
+          lay: key layout over the integer columns id (ordinal 0) and k2 (ordinal 1, present iff k2 = 1);
+          tail = 1: the integer columns are placed after the text columns (does not enter the model)
+          op = (ins id k2 col …) | (del id) | (upd id col …) | (rekey id new) | (rekey2 id new);  col = null | (d rune …)
+          row = id | id:k2
+          obs: t=((row col …) …) mw=((row …) …) me=((row …) …) dc=(…) gc=(…) rc=(…) pos=(…)   (every list sorted as strings)
+          dc / pos entries carry the row's key values in schema order (id before k2), whatever the storage order C0 C1 …
 -/
 
 def minLen : Nat := 3
@@ -34,10 +38,11 @@ def parseCol : Sexp → Option (Option (List R))
   | s => (parseDoc s).map some
 
 def parseOp : Sexp → Option Op
-  | .list (.atom "ins" :: id :: cols) => do
+  | .list (.atom "ins" :: id :: k2 :: cols) => do
     let i ← id.nat?
+    let j ← k2.nat?
     let cs ← cols.mapM parseCol
-    pure (.ins { id := i, cols := cs })
+    pure (.ins { id := i, k2 := j, cols := cs })
   | .list [.atom "del", id] => id.nat?.map .del
   | .list (.atom "upd" :: id :: cols) => do
     let i ← id.nat?
@@ -47,6 +52,22 @@ def parseOp : Sexp → Option Op
     let i ← id.nat?
     let n ← n.nat?
     pure (.rekey i n)
+  | .list [.atom "rekey2", id, n] => do
+    let i ← id.nat?
+    let n ← n.nat?
+    pure (.rekey2 i n)
+  | _ => none
+
+def parseNats (l : List Sexp) : Option (List Nat) := l.mapM (·.nat?)
+
+def parseLay : Sexp → Option (Bool × Layout)
+  | .list [.atom "lay", .atom k2, .list (.atom "pk" :: pk), .list (.atom "uks" :: uks), .list (.atom "nn" :: nn)] => do
+    let pk ← parseNats pk
+    let uks ← uks.mapM fun u => match u with
+      | .list l => parseNats l
+      | _ => none
+    let nn ← parseNats nn
+    pure (k2 == "1", { pk := pk, uks := uks, nn := nn })
   | _ => none
 
 def utf8 (c : Nat) : List UInt8 :=
@@ -78,11 +99,16 @@ def docOK (d : List R) : Bool := d.all fun r => !(r.ch && isApos r)
 
 /-- What identifies a row in DOC_COUNT / POSITION: the primary key, or the row hash (= content). -/
 inductive RKey where
-  | id (n : Nat)
+  | key (vals : List Nat)
   | hash (r : Row)
   deriving DecidableEq
 
-def rkOf (keyed : Bool) (r : Row) : RKey := if keyed then .id r.id else .hash r
+/-- The key columns in schema order (the observation names a row key independently of the order in
+which DOC_COUNT / POSITION store its values). -/
+def schemaOrder (ps : List Nat) : List Nat := (List.range (ps.foldl max 0 + 1)).filter ps.contains
+
+/-- `ps` = the key columns of the layout (`[]` ⇔ row hash). -/
+def rkOf (keyed : Bool) (ps : List Nat) (r : Row) : RKey := if keyed then .key (keyVals ps r) else .hash r
 
 abbrev IdxT := Idx (List Nat) RKey
 
@@ -93,17 +119,19 @@ structure EdState where
 
 /-- Row-level editor calls of a DML statement (engine: one `Delete` / `Update` per matching row,
 `Insert` per new row). -/
-def edOpsOf (rows : List Row) : Op → List EdOp
+def edOpsOf (rows : List Row) (op : Op) : List EdOp :=
+  match op with
   | .ins r => [.ins r]
-  | .del k => (targets k rows).map .del
-  | .upd k cols => (targets k rows).map fun r => .upd r { r with cols := cols }
-  | .rekey k n => (targets k rows).map fun r => .upd r { r with id := n }
+  | .del _ => (touched rows op).map .del
+  | .upd _ cols => (touched rows op).map fun r => .upd r { r with cols := cols }
+  | .rekey _ n => (touched rows op).map fun r => .upd r { r with id := n }
+  | .rekey2 _ n => (touched rows op).map fun r => .upd r { r with k2 := n }
 
-def runOps (key : Word → List Nat) (keyed : Bool) (ix : IdxT) : List EdOp → Option IdxT
+def runOps (key : Word → List Nat) (keyed : Bool) (ps : List Nat) (ix : IdxT) : List EdOp → Option IdxT
   | [] => some ix
   | op :: ops =>
-    match edStep key (rkOf keyed) minLen maxLen ix op with
-    | some ix' => runOps key keyed ix' ops
+    match edStep key (rkOf keyed ps) minLen maxLen ix op with
+    | some ix' => runOps key keyed ps ix' ops
     | none => none
 
 def newRows : EdOp → List Row
@@ -113,14 +141,16 @@ def newRows : EdOp → List Row
 
 /-- One DML statement: the reference semantics decides which rows change (duplicate-key failures
 included); the editor calls run on the index; if one of them fails the statement is discarded. -/
-def stmt (key : Word → List Nat) (keyed : Bool) (s : EdState) (op : Op) : EdState :=
-  let rows' := applyOp keyed s.rows op
+def stmt (key : Word → List Nat) (lay : Layout) (s : EdState) (op : Op) : EdState :=
+  let keyed := keyedIdx lay
+  let ps := schemaOrder (getKeyColumns lay).positions
+  let rows' := applyOp lay s.rows op
   if rows' == s.rows && (match op with | .ins _ => true | _ => false) then s   -- rejected INSERT (duplicate key)
   else
     let eops := edOpsOf s.rows op
     -- a key change that is rejected by the table leaves everything as it was
-    if (match op with | .rekey _ _ => rows' == s.rows | _ => false) then s
-    else match runOps key keyed s.ix eops with
+    if (match op with | .rekey _ _ => rows' == s.rows | .rekey2 _ _ => rows' == s.rows | _ => false) then s
+    else match runOps key keyed ps s.ix eops with
       | some ix' => { rows := rows', ix := ix', seen := s.seen ++ eops.flatMap newRows }
       | none => s
 
@@ -142,23 +172,26 @@ def handle (p : List Sexp) : String :=
       let spec := "w=" ++ plist ((specWords minLen doc).map wordHex) ++ ps ++ rest
       if impl == spec then answer impl else answer impl spec "tokenizer_differs_from_spec"
     | none => answer "bad-case"
-  | [.list [.atom "hist", .atom ci, .atom keyed, .list (.atom "ops" :: ops), .list (.atom "queries" :: qs)]] =>
-    match ops.mapM parseOp, qs.mapM parseDoc with
-    | some ops, some qs =>
+  | [.list [.atom "hist", .atom ci, lay, .atom _tail, .list (.atom "ops" :: ops), .list (.atom "queries" :: qs)]] =>
+    match ops.mapM parseOp, qs.mapM parseDoc, parseLay lay with
+    | some ops, some qs, some (hasK2, lay) =>
       let ci := ci == "1"
-      let keyed := keyed == "1"
+      let keyed := keyedIdx lay
+      let ps := schemaOrder (getKeyColumns lay).positions
       let key := keyOf ci
-      let ids (l : List Row) := plist (sortS (l.map fun r => toString r.id))
+      let rowS (r : Row) : String := if hasK2 then toString r.id ++ ":" ++ toString r.k2 else toString r.id
+      let ids (l : List Row) := plist (sortS (l.map rowS))
       let colS (c : Option (List R)) : String := match c with
         | none => "null"
         | some d => wordHex d
       let tbl (l : List Row) := plist (sortS (l.map fun r =>
-        "(" ++ " ".intercalate (toString r.id :: r.cols.map colS) ++ ")"))
-      let idS (id : Nat) := if keyed then toString id ++ " " else ""
+        "(" ++ " ".intercalate (rowS r :: r.cols.map colS) ++ ")"))
+      let keyS (vals : List Nat) : String := String.join (vals.map fun v => toString v ++ " ")
+      let idS (r : Row) := if keyed then keyS (keyVals ps r) else ""
       -- observation of a table state; `whereImpl`: WHERE form as implemented / as specified
       let obsOf (rows : List Row) (whereImpl : Bool) : String :=
         let mw := qs.map fun q =>
-          ids (if whereImpl then implMatchWhere key minLen maxLen keyed rows q else specMatch key minLen maxLen rows q)
+          ids (if whereImpl then implWhere key minLen maxLen lay rows q else specMatch key minLen maxLen rows q)
         let me := qs.map fun q => ids (specMatch key minLen maxLen rows q)
         let dc := sortS ((specDocCount key minLen maxLen keyed rows).map fun e =>
           "(" ++ wordHex e.1 ++ " " ++ idS e.2.1 ++ toString e.2.2 ++ ")")
@@ -170,20 +203,21 @@ def handle (p : List Sexp) : String :=
           "(" ++ wordHex e.1 ++ " " ++ idS e.2.1 ++ toString e.2.2 ++ ")")
         "t=" ++ tbl rows ++ " mw=" ++ plist mw ++ " me=" ++ plist me ++ " dc=" ++ plist dc ++ " gc=" ++ plist gc
           ++ " rc=" ++ plist rc ++ " pos=" ++ plist pos
-      let rowsI := ops.foldl (applyOpImpl minLen maxLen keyed) []
-      let rowsS := ops.foldl (applyOp keyed) []
+      let rowsI := ops.foldl (applyOpImpl minLen maxLen lay) []
+      let rowsS := ops.foldl (applyOp lay) []
       -- Impl model of the index tables: the editor model run over the history
-      let st := ops.foldl (stmt key keyed) { rows := [], ix := Idx.empty, seen := [] }
+      let st := ops.foldl (stmt key lay) { rows := [], ix := Idx.empty, seen := [] }
       let cand := st.rows ++ st.seen
       let rkS (q : RKey) : String := match q with
-        | .id n => toString n ++ " "
+        | .key vals => keyS vals
         | .hash _ => ""
+      let rkOf := rkOf keyed ps
       let firstBy {α β : Type} [BEq β] (f : α → β) (l : List α) : List α :=
         (l.foldl (fun (acc : List α × List β) x => if acc.2.contains (f x) then acc else (acc.1 ++ [x], acc.2 ++ [f x])) ([], [])).1
       let dcI := firstBy (fun (e : List Nat × RKey × String) => (e.1, e.2.1))
         (cand.flatMap fun r => (uniq key minLen r).filterMap fun e =>
-          let n := st.ix.dc e.2.1 (rkOf keyed r)
-          if n == 0 then none else some (e.2.1, rkOf keyed r, "(" ++ wordHex e.1 ++ " " ++ rkS (rkOf keyed r) ++ toString n ++ ")"))
+          let n := st.ix.dc e.2.1 (rkOf r)
+          if n == 0 then none else some (e.2.1, rkOf r, "(" ++ wordHex e.1 ++ " " ++ rkS (rkOf r) ++ toString n ++ ")"))
       let gcI := firstBy (fun (e : List Nat × String) => e.1)
         (cand.flatMap fun r => (uniq key minLen r).filterMap fun e =>
           let n := st.ix.gc e.2.1
@@ -193,8 +227,8 @@ def handle (p : List Sexp) : String :=
         if n == 0 then none else some ("(" ++ toString n ++ " " ++ toString (uniq key minLen r).length ++ ")")
       let posI := firstBy (fun (e : (Word × RKey × Nat) × String) => e.1)
         (cand.flatMap fun r => (tokenize minLen (docOf r)).filterMap fun t =>
-          if st.ix.pos t.1 (rkOf keyed r) t.2 then
-            some ((t.1, rkOf keyed r, t.2), "(" ++ wordHex t.1 ++ " " ++ rkS (rkOf keyed r) ++ toString t.2 ++ ")")
+          if st.ix.pos t.1 (rkOf r) t.2 then
+            some ((t.1, rkOf r, t.2), "(" ++ wordHex t.1 ++ " " ++ rkS (rkOf r) ++ toString t.2 ++ ")")
           else none)
       let implIdx := " dc=" ++ plist (sortS (dcI.map (·.2.2))) ++ " gc=" ++ plist (sortS (gcI.map (·.2)))
         ++ " rc=" ++ plist (sortS rcI) ++ " pos=" ++ plist (sortS (posI.map (·.2)))
@@ -203,15 +237,20 @@ def handle (p : List Sexp) : String :=
       let cut (o : String) : String := (o.splitOn " dc=").headD ""
       let impl := cut implFull ++ implIdx
       let spec := obsOf rowsS false
+      -- the walk with explicit key resolution and the multiplicity model `implMatchWhere` are the same
+      -- multiset (`C51.filter_walk_count`); checked here as well
+      let walkOK := qs.all fun q =>
+        ids (implWhere key minLen maxLen lay rowsI q) == ids (implMatchWhere key minLen maxLen keyed rowsI q)
       if st.rows != rowsI then answer "model-inconsistent: editor model and applyOpImpl disagree on the table" spec "no_region"
+      else if !walkOK then answer "model-inconsistent: filterWalk and implMatchWhere disagree" spec "no_region"
       else if impl == spec then answer impl
       else
         let reg :=
-          if rStuck minLen maxLen keyed [] ops then "dml_rejected_for_row_with_overlong_word"
+          if rStuck minLen maxLen lay [] ops then "dml_rejected_for_row_with_overlong_word"
           else if qs.any (fun q => rRepeats key minLen maxLen keyed rowsI q) then "where_match_repeats_row_per_matched_word"
           else "no_region"
         answer impl spec reg
-    | _, _ => answer "bad-case"
+    | _, _, _ => answer "bad-case"
   | _ => answer "bad-case"
 
 def main : IO Unit := runPure handle
